@@ -421,7 +421,9 @@ def check_search_post(I, inst, results, mode, ret_kind, index_base=None, range_c
                 else:
                     bad = []
                     ll = st.ghost.get('lane_lo', {}).get(lane_sym)
-                    q_eff = q + ll[1] if ll is not None else q      # lanes below `lo` were cleared artificially: they must be covered
+                    q_eff = q + ll[1] if (ll is not None and ll[2] == 'kept') else q      # lanes below `lo` were cleared artificially: they must be covered
+                    if ll is not None and ll[2] == 'below':
+                        q_eff = q + V(lane_sym) + 0    # a surviving lane below `lo`: every position before it must be covered
                     for n in needles:
                         k, v = _find(st, 'hi' if mode == 'fwd' else 'lo', r, n)
                         if mode == 'fwd':
